@@ -66,8 +66,10 @@ func init() {
 			"Session.GetPreparedQuery/GetCachedQuery… neither are nor can hold a sql.Node, so no plan-level cache outlives its statement; (G4) CachedResults nodes are built only by NewCachedResults, which only " +
 			"analyzer.cacheSubqueryAliasesInJoins calls, on a branch that depends on SubqueryAlias.CanCacheResults(); (G5) guarded-by for Subquery's caches under cacheMu; (G6) CachedResults serves rows only after " +
 			"IsFinalized() and is filled only at io.EOF of its child (never with a partial result), and its fields are written only by SetCachedResults. A violated clause lets a correlated/volatile subquery, " +
-			"a partial result or a previous statement's plan be served as current data.",
-		NotCovered: "correctness of the correlated/volatile detection itself, session table snapshots of the in-memory backend (the clause that keeps them fresh — every autocommit statement, failed or not, commits and clears its implicit transaction so that the next statement starts a new one and drops the snapshots — is decided under C17: P1 for analysis-time errors, P2 + P2w for TransactionCommittingIter.Close and the fields its decision reads), HashLookup's lifetime (owned by one plan execution), information_schema caches",
+			"a partial result or a previous statement's plan be served as current data. " +
+			"(G7) trigger body => volatile, a fold of the construction site over the finite builder state: state = the boolean fields of planbuilder.TriggerContext; the states in which a trigger body is being built are read from the function that constructs the CreateTrigger node (calls plan.NewCreateTrigger): the field it sets to true and restores in a deferred function (Active), restricted by the if-conditions enclosing that assignment (!LoadOnly); " +
+			"for every `v := plan.NewSubquery(...)` in planbuilder and every such feasible state, the statements following the construction, with if-conditions over TriggerContext fields (reached through any base expression, resolved by field object) decided by the state, must assign to v the result of a method of plan.Subquery that sets `volatile` to true before v is returned. The trigger body's plan is executed once per affected row on the same Subquery object: an unmarked state serves the first firing's cached result to later firings.",
+		NotCovered: "correctness of the correlated/volatile detection itself other than the trigger-body clause G7 (stored-procedure bodies, loop bodies and prepared re-execution have no builder-state marker at the Subquery construction site today - procedures are re-planned per CALL - so no obligation can be read for them; SubqueryAlias volatility comes from scope.volatile(), not from the builder state; that With* methods other than the volatile writer preserve the flag is assumed), session table snapshots of the in-memory backend (the clause that keeps them fresh — every autocommit statement, failed or not, commits and clears its implicit transaction so that the next statement starts a new one and drops the snapshots — is decided under C17: P1 for analysis-time errors, P2 + P2w for TransactionCommittingIter.Close and the fields its decision reads), HashLookup's lifetime (owned by one plan execution), information_schema caches",
 		Technique:  "CFG path exploration with gate facts (true edge of a predicate) + who-constructs/who-writes over go/types + type-level containment",
 		Run: func(c *Ctx) {
 			pl := modPath + "/sql/plan."
@@ -89,6 +91,7 @@ func init() {
 						}
 					}
 				}})
+			runC11G7(c, c11g7Repo)
 		},
 		Fixture: func(c *Ctx, fx *Prog) {
 			fa := func(rel string) c11Anchors {
